@@ -1428,6 +1428,7 @@ def run_generic_pack(repo, res, prop, extra_modules=()):
         r_ = fn(repo, res, scope)
         n += r_ if isinstance(r_, int) else 0
     res.notes['generic_pack_modules'] = sorted(mods)
+    res.notes['generic_pack_selftest'] = pack_selftest()
     from .spectable import EXTRA_SPECS, EXTRA_PATHSUMS
     apply_specs(repo, res, EXTRA_SPECS.get(prop, []))
     for fullname, ref_src, meaning in EXTRA_PATHSUMS.get(prop, []):
@@ -1615,3 +1616,67 @@ def run_pure_getters(repo, res, modules):
                                         f'(and whatever shares that array) is changed by a mere read', {}))
     res.inst('A2-PROP', 0)
     return n
+
+
+_SELFTEST_SRC = '''
+def collect(item, bucket=[]):
+    bucket.append(item)
+    return bucket
+
+
+def render(rows):
+    out = []
+    for row in rows:
+        try:
+            out.append(draw(row))
+        except ValueError:
+            break
+    return out
+
+
+def refine(sources):
+    n = 0
+    for src in sources:
+        while n < 16 and not done(src):
+            step(src)
+            n += 1
+
+
+def configure(fix_center=False, fix_pa=False, fix_eps=False):
+    if fix_center or fix_eps:
+        return [fix_center, fix_center, fix_pa, fix_eps]
+    return None
+'''
+_SELFTEST_OK = None
+
+
+def pack_selftest():
+    """Positive examples for the function-level pack rules whose instance count on the pinned tree is zero or one: a rule that
+    stopped matching its own textbook example is broken, and says so instead of passing vacuously."""
+    global _SELFTEST_OK
+    if _SELFTEST_OK is not None:
+        return _SELFTEST_OK
+    from types import SimpleNamespace
+    from ..report import Result
+    from ..core import set_parents
+    tree = ast.parse(_SELFTEST_SRC)
+    set_parents(tree)
+    mod = SimpleNamespace(name='selftest', relpath='<selftest>', tree=tree)
+    funcs = {}
+    for n in tree.body:
+        a = n.args
+        funcs[n.name] = SimpleNamespace(module=mod, node=n, name=n.name, qualname=n.name, fullname='selftest.' + n.name,
+                                        params=[x.arg for x in a.posonlyargs + a.args + a.kwonlyargs], loc='<selftest>', cls=None)
+    fake = SimpleNamespace(functions=funcs, modules={'selftest': mod}, classes={})
+    want = {'MUTABLE-DEFAULT': run_mutable_default, 'LOOP-BREAK': run_loop_break, 'LOOP-COUNTER': run_loop_counter,
+            'GUARD-FAMILY': run_guard_family}
+    got = {}
+    for rule, fn in want.items():
+        r = Result('SELFTEST')
+        fn(fake, r, {'selftest'})
+        got[rule] = len([f for f in r.findings if f.rule == rule])
+    bad = [r for r, k in got.items() if k != 1]
+    if bad:
+        raise AnalysisError(f'generic pack self-test: {bad} no longer report their positive example ({got})')
+    _SELFTEST_OK = got
+    return got
